@@ -39,11 +39,21 @@ use self::{
     adjacent::*,
     algo::{bfs::*, dfs::*, order::*, pfs::*},
 };
+#[cfg(not(feature = "gdsl_verif"))]
 use std::{
     fmt::Display,
     hash::Hash,
     ops::Deref,
     sync::{Arc, RwLock, Weak},
+};
+#[cfg(feature = "gdsl_verif")]
+use crate::verif_hook::RwLock;
+#[cfg(feature = "gdsl_verif")]
+use std::{
+    fmt::Display,
+    hash::Hash,
+    ops::Deref,
+    sync::{Arc, Weak},
 };
 
 enum Transposition {
